@@ -126,6 +126,17 @@ func failedStepKeepsFrame(s *cases.Set, b []byte) {
 			err := st.f(&p)
 			cases.End()
 			if err == nil {
+				// mac-commands live in a port-0 FRMPayload only: on any other frame the step is refused, or at least
+				// leaves a frame that still encodes to what was received (C03-… / audit 3)
+				if st.name == "DecodeFRMPayloadToMACCommands" {
+					if m, ok := p.MACPayload.(*lorawan.MACPayload); ok && (m.FPort == nil || *m.FPort != 0) {
+						if re, e2 := p.MarshalBinary(); e2 != nil || !bytes.Equal(re, b) {
+							s.Fail(cases.GoFail{Key: fmt.Sprintf("step-on-application-port-changes-frame:%s:%x", st.name, b),
+								What:   fmt.Sprintf("%s returned nil on a frame whose FPort is not 0 and left the frame re-encoding to %x (err %v) instead of the received bytes", st.name, re, e2),
+								Replay: map[string]interface{}{"bytes": fmt.Sprintf("%x", b), "step": st.name}})
+						}
+					}
+				}
 				return
 			}
 			if re, e2 := p.MarshalBinary(); e2 != nil || !bytes.Equal(re, b) {
@@ -225,6 +236,7 @@ func main() {
 	add(s, []byte{0x40, 4, 3, 2, 1, 0x01, 1, 0, 0x03, 9, 9, 9, 9}, "corpus")
 	add(s, []byte{0x40, 4, 3, 2, 1, 0x00, 1, 0, 0x00, 0x03, 9, 9, 9, 9}, "corpus")
 	add(s, []byte{0x60, 4, 3, 2, 1, 0x00, 1, 0, 0x00, 0x05, 0x01, 9, 9, 9, 9}, "corpus")
+	add(s, []byte{0x40, 1, 2, 3, 4, 0x00, 1, 0, 0x05, 0x02, 0xaa, 0xbb, 0xcc, 0xdd}, "corpus") // FPort 5, payload 02: no mac-command
 	for _, n := range []int{17, 33, 49, 65, 81} {
 		b := r.Bytes(n)
 		b[0] = 0x20
